@@ -16,7 +16,8 @@ REQUIRED = ['getNBest_scale', 'plurality_scale', 'highestAverages_scale', 'sumVa
             'condorcetRule_scale', 'condorcetSetRule_scale', 'benham_scale', 'tideman_scale',
             'spav_scale', 'pav_scale', 'pav_fresh_scale',
             'scoreVoting_scale', 'scoreAggregate_scale', 'majorityJudgmentPlus_scale', 'star_scale',
-            'bucklin_scale', 'bucklinWhole_scale', 'hare_homogeneousSTV', 'stvSelector_scale', 'stvDistributor_scale']
+            'bucklin_scale', 'bucklinWhole_scale', 'preferenceAddition_scale', 'bucklinSeats_scale', 'oklahoma_scale',
+            'baldwin_scale', 'hare_homogeneousSTV', 'stvSelector_scale', 'stvDistributor_scale']
 # families whose scale invariance is proved in Lean (Props/C11.lean); the rest is covered by the oracle only
 PROVED_FAMILIES = ['plurality', 'ha_d_hondt', 'ha_sainte_lague', 'ha_imperiali', 'ha_danish', 'ha_macau', 'quota_selector_hare',
                    'rel_threshold_5pc', 'rel_threshold_third', 'rel_threshold_5pc_decimal', 'rel_threshold_5pc_float',
@@ -29,10 +30,11 @@ PROVED_FAMILIES = ['plurality', 'ha_d_hondt', 'ha_sainte_lague', 'ha_imperiali',
                    'condorcet_winner', 'smith_set', 'schwartz_set', 'benham', 'tideman_alternative',
                    'approval_pav', 'approval_spav',
                    'score_mean', 'score_sum0', 'score_median', 'majority_judgment_plus', 'star', 'bucklin',
-                   'stv_gregory_hare']
+                   'oklahoma', 'baldwin', 'stv_gregory_hare']
 # proved for a part of the family's parameter space only: the rest stays listed as unproved
-PARTLY_PROVED = {'bucklin': 'n_seats > 1 (only the one-seat evaluator is modelled: C17)',
-                 'tideman_alternative': 'n_seats > 1 (only the single-winner tier is modelled: C05)'}
+PARTLY_PROVED = {'tideman_alternative': 'n_seats > 1 (only the single-winner tier is modelled: C05; with more seats the implementation '
+                                        'always raises - RANKED_SUBSETTER.convert is called without its subset argument, sequential.py '
+                                        'L671: TypeError/KeyError/IndexError on 229 of 229 generated cases - so there is no evaluator to model)'}
 MULTIPLIERS = [2, 3, 7, 10 ** 6, 10 ** 25 + 7]
 SMALL_MULTIPLIERS = [2, 3, 7]
 BIG_MULTIPLIERS = [10 ** 25 + 7, 2 ** 70 + 1, 3 * 10 ** 30 + 11, 10 ** 25 + 7]     # directed boundary cases
@@ -136,6 +138,7 @@ def _init_unproved():
 
 
 _init_unproved()
+NAME_MODES = ['str', 'int0', 'empty0']
 REQUIRED_COUNTERS = (['score_fraction_counts', 'score_large_factor', 'scale', 'near_tie', 'equal_rational', 'beyond_2^53', 'modelled',
                       'lr_equal_remainders', 'threshold_boundary', 'exact_half_or_quota', 'odd_total_half', 'even_factor']
                      + ['m:' + f for f in PROVED_FAMILIES])      # every proved family is also run through its Lean model
@@ -156,7 +159,9 @@ NOT_VERIFIED = ['returned numeric TYPES (int/Fraction/Decimal, never float) are 
                 'depends on frozenset iteration); the converter model is checked against it as a map on every case',
                 'order among equally valued winners listed individually (positional / approval / score / PAV / second-order Copeland) is '
                 'compared up to permutation inside runs of equal value (Python set iteration order)',
-                'Benham / Tideman / Bucklin: the Lean models are the one-seat evaluators (C05, C17); the score-family model expands one '
+                'Benham / Tideman: the Lean models are the one-seat evaluators (C05); Bucklin / Oklahoma / Baldwin run through the n-seat models '
+                'of the C08 extension (shared ranks are iterated in protocol order there: compared order-insensitively on such profiles); '
+                'the score-family model expands one '
                 'element per vote like the code, so it is run on profiles of at most 5000 votes']
 
 
@@ -352,10 +357,12 @@ def model_line(case):
         if f == 'stv_gregory_hare':
             return {'op': 'stv_eval', 'method': 'gregory', 'quota': 'hare', 'accept_equal': True, 'mandatory': False, 'step': -1,
                     'form': 'selector', 'votes': enc_stv(prof), 'n': case['n'], 'prev': [], 'max': [], 'draws': []}
-        if f == 'bucklin':
-            if case['n'] != 1:
-                return None          # the C17 model is the one-seat evaluator
-            return {'op': 'c11_bucklin', 'votes': enc_ranked(prof), 'split': True}
+        if f == 'bucklin' and case['n'] == 1 and 'one_seat' in case.get('_tags', ()):
+            return {'op': 'c11_bucklin', 'votes': enc_ranked(prof), 'split': True}      # the one-seat model of C17
+        if f in ('bucklin', 'oklahoma'):                                                 # the n-seat model of the C08 extension
+            return {'op': 'preference_addition', 'votes': prof, 'n': case['n'], 'coef': f, 'split': True}
+        if f == 'baldwin':
+            return {'op': 'baldwin', 'votes': prof, 'n': case['n']}
         if f in ('benham', 'tideman_alternative'):
             if case['n'] != 1:
                 return None          # the C05 models are the single-winner evaluators
@@ -384,6 +391,17 @@ def model_line(case):
 
 def compare(case, iobs, mobs):
     got = iobs['scaled'] if case['op'] == 'scale' else iobs
+    if case['op'] == 'scale' and case['family'] in ('bucklin', 'oklahoma', 'baldwin') and \
+            any(isinstance(it, list) for b, _ in case['prof'] for it in b):
+        # shared ranks: the model iterates them in protocol order, Python in frozenset order - the order among equally placed
+        # individually elected winners follows it (C10's subject): compare the elected set and the tie places
+        def unordered(o):
+            if isinstance(o, dict):
+                return o
+            o = canon(o)
+            return [sorted(x for x in o if not isinstance(x, dict)), [x for x in o if isinstance(x, dict)]]
+        a, b = unordered(got), unordered(mobs)
+        return None if a == b else f'impl={json.dumps(a)} model={json.dumps(b)} (order-insensitive: shared ranks)'
     if isinstance(mobs, dict) and 'res' in mobs and 'grp' in mobs:      # second-order Copeland: the C05 canonicalisation
         from props import C05
         return C05.compare({'op': 'eval', 'name': 'copeland_2o'}, got, mobs)
@@ -451,10 +469,10 @@ LEVEL_TEXT = ('Scale invariance is a Lean theorem, for ALL inputs of the model a
               'over-award policy, any previous gains and caps), the converters (linear maps) and hence positional rules and (satisfaction) '
               'approval voting, every entry of condorcet.EVALUATORS on arbitrary pairwise dictionaries and composed with RankedToCondorcetVotes, '
               'Condorcet winner / Smith / Schwartz sets, Benham, Tideman alternative (one seat), PAV (from any state of its coefficient cache), '
-              'SPAV, Bucklin (one seat), STV with Gregory transfers and a homogeneous quota (selector and distributor); for positive natural '
+              'SPAV, PreferenceAddition with any coefficient function and any number of seats (Bucklin, Oklahoma), Baldwin, STV with Gregory transfers and a homogeneous quota (selector and distributor); for positive natural '
               'factors: ScoreVoting sum/mean/lower median, MajorityJudgment with the plus tie-break, STAR. Near-tie separation and equal-rational '
-              'ties are theorems over all rationals. Unproved (oracle only): Baldwin, Oklahoma, Bucklin and Tideman with several seats; '
+              'ties are theorems over all rationals. Unproved (oracle only): Tideman alternative with several seats (the implementation always raises there); '
               'MajorityJudgment with the default tie-break is scale DEPENDENT (open finding). Returned numeric types are monitored (no float).')
-LEVEL_NOTE = ('Trusted: Lean kernel + standard axioms; the models of C01/C02/C03/C05/C06/C09/C12/C13/C16/C17 tied to the code by correspondence '
+LEVEL_NOTE = ('Trusted: Lean kernel + standard axioms; the models of C01/C02/C03/C05/C06/C08(sequential)/C09/C12/C13/C16/C17 tied to the code by correspondence '
               '(re-run here on the scaled profiles); CPython int/Fraction exactness. Partial: the families listed as unproved are decided by the '
               'oracle only; numeric types are a runtime fact; the score-family theorems carry the hypothesis ScaleFreeCfg.')
